@@ -151,3 +151,56 @@ Proof.
 Qed.
 Lemma done_stable s t o s' r : DONE.closed s = true -> DONE.sstep s t o = Some (s', r) -> s' = s.
 Proof. unfold DONE.sstep. intros E H. rewrite E in H. destruct (o_code o); injection H as <- <-; reflexivity. Qed.
+
+(* ------------------------------------------------------------------ OnceGuard over histories of any length *)
+Definition once_true_ret (e : ev) : bool := ekind_eqb (e_k e) KRet && Nat.eqb (e_op e) 0 && Nat.eqb (e_a e) 1.
+
+(* the number of Take responses "true" in the trace is the ghost counter, hence at most one, for
+   every schedule and every script length (no bound: in particular beyond 2^32 calls) *)
+Lemma once_trace_count scripts sched :
+  let s := run (AO.step ONCE.sstep) sched (AO.init ONCE.init scripts) in
+  count_occ_b once_true_ret (AO.trace s) = ONCE.ntaken (AO.obj s).
+Proof.
+  apply (run_inv (AO.step ONCE.sstep) (fun s => count_occ_b once_true_ret (AO.trace s) = ONCE.ntaken (AO.obj s))); [|reflexivity].
+  intros l s s' H Hs. destruct l as [t| |]; simpl in Hs; try discriminate.
+  destruct (AO.t_pend (AO.ts s t)) as [o|].
+  - unfold ONCE.sstep in Hs. destruct (o_code o) eqn:Ho.
+    + destruct (ONCE.done (AO.obj s)) eqn:Hd; injection Hs as <-; simpl; unfold once_true_ret in *; simpl; lia.
+    + injection Hs as <-. simpl. unfold once_true_ret in *. simpl. assumption.
+  - destruct (AO.t_todo (AO.ts s t)); [discriminate|]. injection Hs as <-. simpl. assumption.
+Qed.
+
+Lemma once_exactly_one_true scripts sched :
+  let s := run (AO.step ONCE.sstep) sched (AO.init ONCE.init scripts) in
+  count_occ_b once_true_ret (AO.trace s) = (if ONCE.done (AO.obj s) then 1 else 0).
+Proof. intros s. subst s. rewrite once_trace_count. apply once_inv. Qed.
+
+(* the flag implementation, as a plain sequence of n Takes: the first and only the first is true *)
+Lemma oncec_flag_takes n c : count_occ_b (fun b : bool => b) (ONCEC.takes 0 c n) <= (if Nat.eqb c 0 then 1 else 0).
+Proof.
+  revert c. induction n as [|k IH]; intros c; simpl; [destruct (Nat.eqb c 0); lia|].
+  specialize (IH 1). simpl in IH. destruct (Nat.eqb c 0); simpl; lia.
+Qed.
+
+(* a wrapping call counter hands the guard out a second time after one wrap *)
+Lemma oncec_counter_refuted w : count_occ_b (fun b : bool => b) (ONCEC.takes (S (S w)) 0 (S (S (S w)))) >= 2.
+Proof.
+  assert (Hwrap : Nat.modulo (S (S w)) (S (S w)) = 0) by (apply Nat.mod_same; discriminate).
+  assert (Hone : Nat.modulo 1 (S (S w)) = 1) by (apply Nat.mod_small; lia).
+  assert (Hstep : forall c n, ONCEC.takes (S (S w)) c (S n) =
+            (Nat.eqb (Nat.modulo (S c) (S (S w))) 1) :: ONCEC.takes (S (S w)) (Nat.modulo (S c) (S (S w))) n) by reflexivity.
+  (* from counter value c >= 1: k calls bring it to the modulus minus one, the next wraps to 0, the next reads 1 *)
+  assert (G : forall k c, c + k = S w -> 1 <= c ->
+            exists l, ONCEC.takes (S (S w)) c (S (S k)) = l ++ [true]).
+  { induction k as [|k IH]; intros c Hc H1.
+    - assert (c = S w) by (clear Hwrap Hone Hstep; lia). subst c.
+      exists [false]. rewrite !Hstep, Hwrap, Hone. reflexivity.
+    - assert (Hm : Nat.modulo (S c) (S (S w)) = S c) by (apply Nat.mod_small; clear Hwrap Hone Hstep IH; lia).
+      destruct (IH (S c)) as [l Hl]; [clear Hwrap Hone Hstep Hm IH; lia|clear Hwrap Hone Hstep Hm IH; lia|].
+      exists (Nat.eqb (S c) 1 :: l). rewrite (Hstep c (S (S k))), Hm, Hl. reflexivity. }
+  rewrite (Hstep 0 (S (S w))), Hone. cbn [Nat.eqb count_occ_b].
+  destruct (G w 1) as [l Hl]; [clear; lia|clear; lia|]. rewrite Hl.
+  assert (Hc : forall l', count_occ_b (fun b : bool => b) (l' ++ [true]) >= 1).
+  { induction l' as [|a l' IHl]; [simpl; lia|]. cbn [app count_occ_b]. destruct a; lia. }
+  specialize (Hc l). clear - Hc. lia.
+Qed.
